@@ -471,7 +471,7 @@ func (t Table) Lookup(req *http.Request, trace string, pick picker, match matche
 				redirect := *target
 				redirect.BuildRedirectURL(req.URL)
 				target = &redirect
-				if target.RedirectURL.Scheme == req.Header.Get("X-Forwarded-Proto") &&
+				if target.RedirectURL.Scheme == requestScheme(req) &&
 					target.RedirectURL.Host == req.Host &&
 					target.RedirectURL.Path == req.URL.Path {
 					log.Print("[INFO] Skipping redirect with same scheme, host and path")
@@ -487,6 +487,19 @@ func (t Table) Lookup(req *http.Request, trace string, pick picker, match matche
 	}
 
 	return target
+}
+
+// requestScheme returns the scheme the client used for the request: the value
+// of the X-Forwarded-Proto header when a proxy in front of fabio has set it
+// and otherwise the scheme of the connection the request arrived on.
+func requestScheme(req *http.Request) string {
+	if proto := req.Header.Get("X-Forwarded-Proto"); proto != "" {
+		return proto
+	}
+	if req.TLS != nil {
+		return "https"
+	}
+	return "http"
 }
 
 func (t Table) LookupHost(host string, pick picker) *Target {
